@@ -6,6 +6,7 @@ import (
 	"strings"
 	"testing"
 
+	"github.com/openziti/storage/ast"
 	"github.com/openziti/storage/boltz"
 	"pgregory.net/rapid"
 
@@ -24,7 +25,21 @@ var c07Kinds = []string{"caller-error", "duplicate", "empty-value", "missing-fk-
 	"pre-commit-action-error-then-ok-action", "unusable-key-in-patch", "veto-update-in-patch",
 	"pre-commit-action-error-via-derived-system-ctx", "unusable-key-via-child-store", "unusable-key-update-via-child-store",
 	"pre-commit-action-error-registered-before-tx", "unstorable-tag-nested-in-list", "unstorable-tag-top-level-in-patch",
-	"missing-link-target-in-persisted-link-set", "missing-link-target-in-persisted-link-set-via-child-store", "self-id-reference-to-missing-target", "veto-cascaded-delete-of-child-entity", "veto-delete-where", "veto-delete-where-not-found-typed"}
+	"missing-link-target-in-persisted-link-set", "missing-link-target-in-persisted-link-set-via-child-store", "self-id-reference-to-missing-target", "veto-cascaded-delete-of-child-entity", "veto-delete-where", "veto-delete-where-not-found-typed",
+	"duplicate-of-id-only-entity"}
+
+// an entity type that persists nothing but its id (its content would live in link sets): the entity bucket is empty
+type c07Bare struct{ Id string }
+
+func (b *c07Bare) GetId() string         { return b.Id }
+func (b *c07Bare) SetId(id string)       { b.Id = id }
+func (b *c07Bare) GetEntityType() string { return "bare" }
+
+type c07BareStrategy struct{}
+
+func (c07BareStrategy) NewEntity() *c07Bare                           { return &c07Bare{} }
+func (c07BareStrategy) FillEntity(*c07Bare, *boltz.TypedBucket)       {}
+func (c07BareStrategy) PersistEntity(*c07Bare, *boltz.PersistContext) {}
 
 var c07Entries = []string{"update", "nested-update", "batch"}
 
@@ -122,7 +137,7 @@ func failingVariant(kind string, m *kit.Model) (c07Variant, bool) {
 	}
 	switch kind {
 	case "caller-error", "pre-commit-action-error", "pre-commit-action-error-then-ok-action", "pre-commit-action-error-via-derived-system-ctx",
-		"pre-commit-action-error-registered-before-tx":
+		"pre-commit-action-error-registered-before-tx", "duplicate-of-id-only-entity":
 		return v, true
 	case "unstorable-tag-nested-in-list":
 		// an entry bbolt refuses, inside a map inside a list inside the tag map
@@ -292,6 +307,13 @@ func runC07(c c07Case) kit.Result {
 	rec := &kit.Recorder{}
 	veto := &kit.Veto{}
 	w.InstallRecorders(rec, veto)
+	bare := boltz.NewBaseStore(boltz.StoreDefinition[*c07Bare]{EntityType: "bare", EntityStrategy: c07BareStrategy{}, BasePath: c.Setup.Cfg.Base()})
+	bare.InitImpl(bare)
+	bare.AddIdSymbol("id", ast.NodeTypeString)
+	if err := w.Z.Db.Update(kit.NewCtx(), func(ctx boltz.MutateContext) error { return bare.Create(ctx, &c07Bare{Id: "bare-1"}) }); err != nil {
+		res.Err = fmt.Errorf("setup: creating the id-only entity: %v", err)
+		return res
+	}
 	m := kit.NewModel(c.Setup.Cfg)
 	for i, tx := range c.Setup.Txs {
 		if out := kit.RunTx(w, m, tx); out.Violation != nil {
@@ -379,6 +401,15 @@ func runC07(c c07Case) kit.Result {
 						}
 						return nil
 					}
+					if kind == "duplicate-of-id-only-entity" {
+						// the id is taken by an entity that has no content of its own
+						opErr = bare.Create(ctx, &c07Bare{Id: "bare-1"})
+						opRan = true
+						if opErr == nil {
+							return errInjected
+						}
+						return opErr
+					}
 					veto.NotFoundTyped = kind == "veto-delete-where-not-found-typed"
 					veto.Arm(v.arm[0], v.arm[1], v.arm[2])
 					_, opErr = w.Exec(ctx, *v.failing)
@@ -407,6 +438,10 @@ func runC07(c c07Case) kit.Result {
 				}
 				if harnessErr != nil {
 					res.Err = harnessErr
+					return res
+				}
+				if opRan && opErr == nil && v.failing == nil {
+					res.Err = fmt.Errorf("%s creating an entity whose id is taken (by an entity that persists nothing but its id) reported success", label)
 					return res
 				}
 				if opRan && opErr == nil {
